@@ -155,3 +155,14 @@ func (r *Report) Write(path string) {
 		panic(err)
 	}
 }
+
+// ReadJSON loads a JSON file into v.
+func ReadJSON(path string, v any) {
+	b, err := os.ReadFile(path)
+	if err != nil {
+		panic(err)
+	}
+	if err := json.Unmarshal(b, v); err != nil {
+		panic(err)
+	}
+}
